@@ -267,6 +267,10 @@ func (c *Ctx) isStateOp(op, store, key string) func(ssa.Instruction) bool {
 		if !ok {
 			return false
 		}
+		switch i.(type) {
+		case *ssa.Defer, *ssa.Go:
+			return false // happens when the function returns (or whenever): not at this point of the path
+		}
 		for _, o := range c.opsOfCall(call) {
 			if o.Op == op && o.Store == store && (o.Key == key || !o.Const) {
 				return true
